@@ -89,6 +89,41 @@ theorem firstLeaf_eq_kids (s : Schema) : s.firstLeaf = Schema.firstLeaf.go s.kid
     | zero => rfl
     | succ n => simp [List.replicate_succ, Schema.firstLeaf.go]
 
+theorem mem_leaves_go : ∀ (cs : List Schema) (k : Nat) (p : List Nat), p ∈ Schema.leaves.go cs k →
+    ∃ i c rest, cs[i]? = some c ∧ p = (k + i) :: rest ∧ rest ∈ c.leaves
+  | [], _, _, h => by simp [Schema.leaves.go] at h
+  | c :: cs, k, p, h => by
+    simp only [Schema.leaves.go, List.mem_append, List.mem_map] at h
+    rcases h with ⟨rest, hr, rfl⟩ | h
+    · exact ⟨0, c, rest, by simp, by simp, hr⟩
+    · obtain ⟨i, c', rest, h1, h2, h3⟩ := mem_leaves_go cs (k + 1) p h
+      exact ⟨i + 1, c', rest, by simpa using h1, by rw [h2]; congr 1; omega, h3⟩
+
+theorem leaves_go_mem_of : ∀ (cs : List Schema) (k i : Nat) (c : Schema) (rest : List Nat), cs[i]? = some c →
+    rest ∈ c.leaves → ((k + i) :: rest) ∈ Schema.leaves.go cs k
+  | [], _, _, _, _, h, _ => by simp at h
+  | c0 :: cs, k, 0, c, rest, h, hr => by
+    simp only [List.getElem?_cons_zero, Option.some.injEq] at h
+    subst h
+    simp only [Schema.leaves.go, List.mem_append, List.mem_map, Nat.add_zero]
+    exact Or.inl ⟨rest, hr, rfl⟩
+  | c0 :: cs, k, i + 1, c, rest, h, hr => by
+    simp only [List.getElem?_cons_succ] at h
+    simp only [Schema.leaves.go, List.mem_append]
+    right
+    have := leaves_go_mem_of cs (k + 1) i c rest h hr
+    have e : k + 1 + i = k + (i + 1) := by omega
+    rw [e] at this; exact this
+
+theorem maxDepth_go_ge : ∀ (cs : List Schema) (c : Schema), c ∈ cs → c.maxDepth ≤ Schema.maxDepth.go cs
+  | [], _, h => by simp at h
+  | c0 :: cs, c, h => by
+    simp only [List.mem_cons] at h
+    simp only [Schema.maxDepth.go]
+    rcases h with rfl | h
+    · omega
+    · have := maxDepth_go_ge cs c h; omega
+
 /-! ## the successor -/
 
 /-- after finishing child `j` of the node at (reversed) path `qr`: the first leaf of the next
